@@ -715,7 +715,7 @@ func (p *Prog) descendInto(in ssa.Instruction) *ssa.Function {
 	if !ok {
 		return nil
 	}
-	g := c.Common().StaticCallee()
+	g := p.calleeOf(c)
 	if g == nil || !p.isPlainHelper(g) {
 		return nil
 	}
@@ -739,4 +739,93 @@ func (p *Prog) predicateBody(v ssa.Value) (ssa.Value, bool, bool) {
 	}
 	body, neg := stripNot(ret.Results[0])
 	return body, neg, true
+}
+
+// impliedEdges returns the edges of fn that are taken whenever the predicate recognised by m
+// holds: the holds-edges of direct tests (guardEdges), plus — when the test is wrapped in a
+// boolean plain helper (`if isEOF(err)`) in which the predicate forces the result true (a
+// direct `return P`, an operand of `P || Q`) — the true edge of the test of the helper's result.
+func (p *Prog) impliedEdges(fn *ssa.Function, m condMatch) (map[edge]bool, int) {
+	save := p.noDescend
+	p.noDescend = true
+	edges, n := p.guardEdges(fn, m)
+	p.noDescend = save
+	for _, b := range fn.Blocks {
+		if len(b.Instrs) == 0 {
+			continue
+		}
+		iff, ok := b.Instrs[len(b.Instrs)-1].(*ssa.If)
+		if !ok {
+			continue
+		}
+		cond, neg := stripNot(iff.Cond)
+		c, ok := cond.(*ssa.Call)
+		if !ok {
+			continue
+		}
+		h := p.calleeOf(c)
+		if h == nil || !p.isPlainHelper(h) || !p.forcesTrue(h, m) {
+			continue
+		}
+		n++
+		if neg {
+			edges[edge{b, b.Succs[1]}] = true
+		} else {
+			edges[edge{b, b.Succs[0]}] = true
+		}
+	}
+	return edges, n
+}
+
+// forcesTrue: in the boolean helper h the predicate recognised by m (with polarity "holds")
+// makes h return true on every path.
+func (p *Prog) forcesTrue(h *ssa.Function, m condMatch) bool {
+	if h.Signature.Results().Len() != 1 {
+		return false
+	}
+	found := false
+	for _, b := range h.Blocks {
+		if len(b.Instrs) == 0 {
+			continue
+		}
+		ret, ok := b.Instrs[len(b.Instrs)-1].(*ssa.Return)
+		if !ok {
+			continue
+		}
+		v := ret.Results[0]
+		// return P
+		if body, neg := stripNot(v); true {
+			if ok, onTrue := m(body); ok && (onTrue != neg) {
+				found = true
+				continue
+			}
+		}
+		phi, isPhi := v.(*ssa.Phi)
+		if !isPhi {
+			continue
+		}
+		for i, e := range phi.Edges {
+			pred := phi.Block().Preds[i]
+			// P || …: P true jumps here with the constant true
+			if k, isK := e.(*ssa.Const); isK && k.Value != nil && k.Value.ExactString() == "true" {
+				if iff, ok := pred.Instrs[len(pred.Instrs)-1].(*ssa.If); ok {
+					body, neg := stripNot(iff.Cond)
+					if ok, onTrue := m(body); ok {
+						holdsOnTrue := onTrue != neg
+						// the edge pred→phi block must be the edge on which P holds
+						if (holdsOnTrue && pred.Succs[0] == phi.Block()) || (!holdsOnTrue && pred.Succs[1] == phi.Block()) {
+							found = true
+						}
+					}
+				}
+				continue
+			}
+			// … || P: the last operand is the result
+			body, neg := stripNot(e)
+			if ok, onTrue := m(body); ok && (onTrue != neg) {
+				found = true
+			}
+		}
+	}
+	return found
 }
